@@ -707,7 +707,9 @@ def pattern_movb(context, tree, c0, c1):
     src = c1
     tmp = context.new_reg(RiscvRegister)
     size = tree.value
-    for instruction in context.arch.gen_riscv_memcpy(dst, src, tmp, size):
+    for instruction in context.arch.gen_riscv_memcpy(
+        dst, src, tmp, size, context.new_reg
+    ):
         context.emit(instruction)
 
 
